@@ -10,6 +10,17 @@ BASE_NOTE = ("Assumed (listed per run in evidence.assumptions): documented behav
              "tree-shaped inputs (A-SEP); int arithmetic on lengths is mathematical (A-LEN). ")
 
 CLAIMS = {
+ "C03": ("Every function under contract is executed symbolically for ALL inputs with every implicit Go check turned into an obligation (index/slice bounds, nil dereference, nil-map store, "
+         "negative make, division by zero, failed type assertion); every loop carries a variant (termination) and every allocation is charged to the ghost counter `alloc`, "
+         "bounded by a linear function of the input length in each parser's contract (so an unchecked length field cannot buy memory); every decoder has the clause "
+         "'input shorter than the mandatory part => err != nil'. Covered: the IDecode of all 57 PDU types and the CMPP status report, the four dispatchers and PeekHeader functions, "
+         "packet.Reader, the TLV/option parsers, the concatenation-header parser, both receipt parsers, the frame extractors, GSM 7-bit unpack/decode, the UCS-2 decoders. "
+         "Known finding D24 (blocking frame reader allocates up to the configured 1 MiB cap before the octets arrive) is carved out and replayed. Repaired: D4, D5, D6, D8, D9, D10, D13, D15, D16a-c, D17a-b, D25.",
+         "Allocation is counted in octets requested from make/append/copy-out models, not measured; wall-clock time is represented by termination plus loop variants bounded by the input length. Callees outside the repository are assumed total (A-EXT). "),
+ "C12": ("Ownership as a ghost predicate: fresh(x) = the backing memory of x was allocated inside the call and is not owned by a pool. Proved: Writer.Bytes/BytesWithLength, TLV.Bytes, Option.Bytes, every IEncode (err == nil => fresh(result)); "
+         "Reader.ReadNBytes and every []byte member / optional-parameter value stored by every IDecode, ReadTLVs, ReadTLVs1, ReadOptions, ParseOptions (loop invariant: the map built so far owns all its values). "
+         "A result that is fresh at return cannot be changed by any later call that does not receive it (separation of allocations), which is the history-independent form of the property. Repaired: D22 (SMGP submit option values aliased the input).",
+         "Strings are immutable values in the model; the engine scans the SSA of the repository for unsafe string/slice conversions on every run (none), and strings.Builder/bytebufferpool String() are assumed to hand out immutable strings (A-STR). Frames returned by the zero-copy extractors are views by design and are not claimed fresh. The [][]byte results of the splitters are not covered. "),
  "C01": ("For each of the 57 PDU types (+ the CMPP status report) the table-derived contracts are proved on the real IEncode/IDecode: "
          "WF(p) => IEncode succeeds, leaves p unchanged up to the documented normalisations and returns layout_T(p) with the real length in octets 0-3; "
          "IDecode(layout_T(q)) yields q in every member for every well-formed q (ghost), all field values, all destination-list lengths (loop invariants), "
@@ -56,7 +67,7 @@ CLAIMS = {
  "C16": ("TLV.Bytes/Option.Bytes: exact image in the exact, truncated and padded cases, no panic for any 16-bit length; TLVs.Bytes/Options.Serialize: result is the serialisation "
          "of the map in the (arbitrary) iteration order; ReadTLVs1/ReadOptions/ParseOptions: on the serialisation of any well-formed set in any order they return that set "
          "(loop invariants over a ghost permutation), on arbitrary input they terminate, stay within the allocation budget and return a well-formed map; Options.Len == len(Serialize()); accessors total.",
-         "Not covered: smpp.ReadTLVs (the error-returning twin; same body shape) and Options.Add on a nil map (D18, see DESIGN.md). "),
+         "Not covered: Options.Add on a nil map (D18, see DESIGN.md). "),
  "C17": ("Bit-vector proofs over all 2^64 ids: CombineMsgID places each in-range field at the CMPP bit positions, SplitMsgID returns those fields, split-then-combine is the identity, "
          "every split field is below its decimal print width.",
          "The decimal string form goes through fmt.Sprintf/Sscanf (%0Nd): assumed (A-FMT), not proved. "),
